@@ -54,8 +54,27 @@ def showErr : Option SendErr → String
 def showHanded (hs : List Handed) : String :=
   hs.foldl (fun acc h => acc ++ s!" {h.bytes.length}:{digest h.bytes}:{showResp h.resp}") ""
 
+/-- one packet of a session op: alen:aseed:dlen:dseed:draw:toks -/
+def parsePkt (sid : Nat) (t : String) : Option Pkt :=
+  match t.splitOn ":" with
+  | [alen, aseed, dlen, dseed, draw, toks] =>
+    match nats [alen, aseed, dlen, dseed, draw], (if toks = "-" then some [] else (toks.splitOn ",").mapM parseEnv1) with
+    | some [alen, aseed, dlen, dseed, draw], some envs =>
+      some ⟨mkMsg sid 0 0 1 (pat aseed alen) (pat dseed dlen), draw, fun i => envs.getD i {}⟩
+    | _, _ => none
+  | _ => none
+
 def step (line : String) : String :=
   match fields line with
+  | ["session", side, sid, pkts] =>
+    match sid.toNat?, (pkts.splitOn "|").mapM (fun t => sid.toNat?.bind fun s => parsePkt s t) with
+    | some _, some ps =>
+      if side ≠ "c" ∧ side ≠ "s" then "bad-op" else
+      match sessionSend (side == "s") (side == "s") Gen.MaxUDPSize ps with
+      | .ok rs => " | ".intercalate (rs.map fun r => s!"err={showErr r.2} n={r.1.length}" ++ showHanded r.1)
+      | .reject => "reject"
+      | .panic => "panic"
+    | _, _ => "bad-op"
   | ["pidhunt", side, seed, n] =>
     -- oracle-only operation (the draws of the real math/rand are not reproduced here): the model's
     -- statement about it is `packet_id_nonzero_range`
